@@ -1305,6 +1305,26 @@ def r518(rep: Report, ctx: Ctx) -> None:
     head = "list(topological_sort(P:self))[0]"
     ok = len(calls) == 1 and calls[0].args == (
         head, f"dfs_successors(P:self,{head})")
+    # the two primitive graph operations add what they are asked to add
+    for fn, meth, want in (("PUMLGraph.add_puml_edge", "add_edge",
+                            ("P:start_node", "P:end_node")),
+                           ("PUMLGraph.add_puml_node", "add_node",
+                            ("P:node",))):
+        f2 = ctx.func(fn)
+        hits = [e for e in effects(ctx, f2) if e.kind == "call"
+                and e.name == meth and e.recv == "super()"
+                and e.args[:len(want)] == want]
+        ok2 = len(hits) == 1 and not hits[0].guards
+        rep.ob("R5.18", f"{f2.name}: everything the walk asks for is added, "
+               "whatever kind of node is involved", ok2, fi=f2,
+               node=hits[0].node if hits else f2.node,
+               detail=(f"super().{meth}({', '.join(want)}, ..) runs when "
+                       f"{hits[0].guards or 'always'}" if hits else
+                       f"no unconditional super().{meth}({', '.join(want)})")
+               + ("" if ok2 else " -- a branch reaches the end node of its "
+                  "block through one edge; dropping it leaves the block "
+                  "open and the rest of the branch behind a stray "
+                  "separator"))
     rep.ob("R5.18", "the diagram is linearised from the first node in "
            "topological order", ok, fi=fi,
            node=calls[0].node if calls else fi.node,
